@@ -4,6 +4,8 @@ import Goyang.Lemmas.TypesAdm
 import Goyang.Lemmas.TypesSpecErr
 import Goyang.Lemmas.TypesLinked
 import Goyang.Lemmas.TypesWfMain
+import Goyang.Lemmas.TypesSpecClaim
+import Goyang.Lemmas.TypesEnumRfc
 /-
 C09 — type names bind lexically and derived types inherit the whole chain.
 
@@ -45,10 +47,35 @@ What is proved (all for unbounded inputs):
   that stands in it, `InPlace`); `resolve_complete_loaded`, `resolve_errors_iff_loaded`: completeness
   and the iff in terms of `resolveType reg` (what the driver computes) under `linkOk`, `WfReg`,
   `InPlace`, `PartOfSchema`.
-Not proved / outside: the side conditions `typeOk` are stated with the sub-models' functions
-(`Range.applyRange`, `Number.asRangeInt`, `enumFold`, `Identity.findIdentityBase`), whose own
-specifications are the subject of C10 / C15 / C14 / C11; when `chainOf` answers `noClaim` nothing is
-claimed, and that its budget `specFuel` suffices is not proved; a reference in a submodule nobody
+* when the executable specification makes no claim (Lemmas/TypesSpecFuel.lean, TypesSpecClaim.lean):
+  `spec_budget_suffices` (with the budget `specFuel reg` neither `chainOf` nor `specResolve` ever answers
+  `noClaim "fuel"` for a type statement of the loaded set — no hypothesis on the set: a chain either
+  ends within the number of loaded `type` statements or comes back to a statement in progress, the
+  cyclic verdict `error`), `spec_noClaim_reason` (a `noClaim w` gives one of six reasons and names a
+  `Feature` of a type statement met below the reference: ambiguous name, typedef without type,
+  malformed enum values / bit positions / fraction-digits, a member type whose chain restates),
+  `spec_ok_inside_claim` (an `ok` answer meets no such feature; on the way `chainOf_ok_stable`: `ok`
+  answers do not depend on budget or statements in progress), `chainOf_noClaim_iff` and
+  `specResolve_noClaim_iff` (exactly when no claim is made), `chainOf_ok_iff` (`ok` iff `Resolvable`
+  and `InsideClaim`), `chainOf_error_iff` (inside the claim: `error` iff not `Resolvable`);
+* the main theorems against the executable specification, without `noClaim`:
+  `resolve_verdict_inside_claim` (inside the claim the verdict is `error` — then the model reports an
+  error — or `ok k ls` — then the model raises no binding-level error and an error-free result agrees
+  with `inherit k ls`; no third case), `resolve_complete_exec`, `resolve_errors_iff_exec` (restatements
+  of `resolve_complete` / `resolve_errors_iff` for `resolveType reg` under `linkOk`, `WfReg`, `InPlace`,
+  `PartOfSchema`, `InsideClaim`);
+* one side condition tied to its sub-model's specification: `resolve_enum_rfc`, `resolve_bits_rfc`
+  (the enum / bit table of an error-free resolution holds exactly the values `Spec.Enum.assign` /
+  `table` of RFC 7950 sections 9.6.4.2 / 9.7.4.2 give the written members, through C14's `text_fold`;
+  Lemmas/TypesEnumRfc.lean).
+Not proved / outside: the remaining side conditions `typeOk` are stated with the sub-models' functions
+(`Range.applyRange`, `Number.asRangeInt`, `Identity.findIdentityBase`), whose own specifications are
+the subject of C10 / C15 / C11; for a reference outside the claim (`¬ InsideClaim`: one of the six
+features is met below it, exactly the `noClaim` answers) the executable specification claims
+nothing — the relational theorems (`resolve_errors_iff` …) still apply wherever `UnambiguousBelow`
+holds; the executable specification's own reading of enum values (`assignValues`) is not tied to
+`Spec.Enum.assign`; that `linkOk` / `PartOfSchema` imply the executable `wellLinked` / `partOfSchema`
+is not proved (`specResolve_noClaim_iff` keeps them as cases); a reference in a submodule nobody
 includes is outside the claim (`PartOfSchema`), as in the executable specification.
 Helper lemmas: Goyang/Lemmas/Types*.lean.
 -/
@@ -57,6 +84,7 @@ open Goyang.Model Goyang.Model.Types Goyang.Spec.Types Goyang.Lemmas.Types
 open Goyang.Lemmas.TypesDefs Goyang.Lemmas.TypesComplete Goyang.Lemmas.TypesRestr Goyang.Lemmas.TypesAdm
 open Goyang.Lemmas.TypesSpecBind Goyang.Lemmas.TypesSpecChain Goyang.Lemmas.TypesSpecErr
 open Goyang.Lemmas.TypesWf Goyang.Lemmas.TypesWfMain
+open Goyang.Lemmas.TypesSpecFuel Goyang.Lemmas.TypesSpecClaim
 
 /-- **Lexical binding.**  Whatever typedef the resolver picks for a type statement `t` is the one the
 name denotes: for an unprefixed or own-prefixed name the typedef of the nearest enclosing scope
@@ -721,6 +749,302 @@ theorem resolve_errors_iff_loaded (reg : Registry) (hok : linkOk reg = true) (hw
   simp only
   exact this
 
+/-! ## When the executable specification makes no claim; its budget
+
+`chainOf` answers `ok`, `error` or `noClaim why`.  The theorems of this section say exactly when the
+third answer is given with the budget `specFuel reg` the runner uses: never for lack of budget, and
+only for a reference below which a `Feature` (Lemmas/TypesSpecFuel.lean) is met: a name that denotes
+two typedefs, a typedef without a type statement, malformed enum values / bit positions /
+fraction-digits, a member type whose chain restates enum / bit members, member types or
+fraction-digits.  `InsideClaim reg site` (Lemmas/TypesSpecClaim.lean): no such feature is met. -/
+
+/-- **Why no claim.**  With the budget `specFuel reg`, for a type statement standing in the loaded set
+(no other hypothesis on the set), a `noClaim w` answer of `chainOf` gives one of six reasons — never
+`"fuel"` — and the reason names a feature of a type statement met while resolving the reference. -/
+theorem spec_noClaim_reason (reg : Registry) (root : Mod) (scope : List Stmt) (t : Stmt)
+    (hroot : root ∈ reg.mods) (ht : t ∈ descendants root.stmt) (hkw : t.kw = "type")
+    (hscope : ∀ s ∈ scope, s ∈ descendants root.stmt) (w : String)
+    (h : chainOf reg (specFuel reg) root scope t [] = .noClaim w) :
+    w ∈ ["ambiguous", "typedef-without-type", "enum-values", "bit-positions", "fraction-digits", "restated"] ∧
+    ∃ site, UsesStar reg (root, scope, t) site ∧ Feature reg site w := by
+  obtain ⟨site, hs, hf⟩ := chainOf_noClaim_reason reg _ root scope t [] w hroot ht hscope hkw List.nodup_nil
+    (fun k hk => by cases hk) (specFuel_ge reg) h
+  exact ⟨hf.reason, site, hs, hf⟩
+
+/-- **The budget of the executable specification suffices.**  With `specFuel reg` (two more than the
+number of `type` statements loaded) neither `chainOf` nor `specResolve` ever answers `noClaim "fuel"`
+for a type statement that stands in the loaded set: the type statements in progress are pairwise
+different `type` statements of the loaded set, so a derivation either ends within that many steps
+or comes back to a statement in progress, which is answered `error` (the cyclic verdict). -/
+theorem spec_budget_suffices (reg : Registry) (root : Mod) (scope : List Stmt) (t : Stmt)
+    (hroot : root ∈ reg.mods) (ht : t ∈ descendants root.stmt) (hkw : t.kw = "type")
+    (hscope : ∀ s ∈ scope, s ∈ descendants root.stmt) :
+    chainOf reg (specFuel reg) root scope t [] ≠ .noClaim "fuel" ∧
+    specResolve reg (specFuel reg) root scope t [] ≠ .noClaim "fuel" := by
+  have h1 : chainOf reg (specFuel reg) root scope t [] ≠ .noClaim "fuel" :=
+    chainOf_not_fuel reg _ root scope t [] hroot ht hscope hkw List.nodup_nil (fun k hk => by cases hk) (specFuel_ge reg)
+  refine ⟨h1, ?_⟩
+  unfold specResolve
+  split
+  · intro h; injection h with h; revert h; decide
+  · split
+    · intro h; injection h with h; revert h; decide
+    · intro h
+      rcases finish_noClaim h with h | ⟨_, _, _, _, h⟩
+      · exact h1 h
+      · revert h; decide
+
+/-- **An `ok` answer is inside the claim**: no feature that would have made the answer `noClaim` is
+met anywhere below the reference (for every budget and every set of statements in progress). -/
+theorem spec_ok_inside_claim (reg : Registry) (hid : SeqId reg) (fuel : Nat) (root : Mod) (scope : List Stmt) (t : Stmt)
+    (vis : List Key) (k : String) (ls : List Layer) (hroot : root ∈ reg.mods)
+    (h : chainOf reg fuel root scope t vis = .ok k ls) : InsideClaim reg (root, scope, t) :=
+  chainOf_ok_no_feature reg hid fuel root scope t vis k ls hroot h
+
+/-- **Exactly when no claim is made.**  With the budget `specFuel reg`, `chainOf` answers `noClaim`
+iff it does not answer `error` and a feature outside the claim is met below the reference. -/
+theorem chainOf_noClaim_iff (reg : Registry) (hid : SeqId reg) (root : Mod) (scope : List Stmt) (t : Stmt)
+    (hroot : root ∈ reg.mods) (ht : t ∈ descendants root.stmt) (hkw : t.kw = "type")
+    (hscope : ∀ s ∈ scope, s ∈ descendants root.stmt) :
+    (∃ w, chainOf reg (specFuel reg) root scope t [] = .noClaim w) ↔
+      chainOf reg (specFuel reg) root scope t [] ≠ .error ∧
+      ∃ site w, UsesStar reg (root, scope, t) site ∧ Feature reg site w := by
+  constructor
+  · rintro ⟨w, h⟩
+    refine ⟨(by rw [h]; intro h'; cases h'), ?_⟩
+    obtain ⟨_, site, hs, hf⟩ := spec_noClaim_reason reg root scope t hroot ht hkw hscope w h
+    exact ⟨site, w, hs, hf⟩
+  · rintro ⟨hne, site, w, hs, hf⟩
+    cases hc : chainOf reg (specFuel reg) root scope t [] with
+    | ok k ls => exact absurd hf (spec_ok_inside_claim reg hid _ root scope t [] k ls hroot hc site w hs)
+    | error => exact absurd hc hne
+    | noClaim w' => exact ⟨w', rfl⟩
+
+/-- **Exactly when `specResolve` (the verdict the runner applies) makes no claim**, with the budget
+`specFuel reg`: an include or import of the loaded set is unresolved; the reference stands in a
+submodule nobody includes; or the chain is not answered `error` and a feature outside the claim is
+met below the reference, or the reference's own chain restates enum / bit members, member types or
+fraction-digits.  Never for lack of budget (`spec_budget_suffices`). -/
+theorem specResolve_noClaim_iff (reg : Registry) (hid : SeqId reg) (root : Mod) (scope : List Stmt) (t : Stmt)
+    (hroot : root ∈ reg.mods) (ht : t ∈ descendants root.stmt) (hkw : t.kw = "type")
+    (hscope : ∀ s ∈ scope, s ∈ descendants root.stmt) :
+    (∃ w, specResolve reg (specFuel reg) root scope t [] = .noClaim w) ↔
+      wellLinked reg = false ∨ partOfSchema reg root = false ∨
+      (chainOf reg (specFuel reg) root scope t [] ≠ .error ∧
+        ((∃ site w, UsesStar reg (root, scope, t) site ∧ Feature reg site w) ∨
+         ∃ k ls, chainOf reg (specFuel reg) root scope t [] = .ok k ls ∧ chainInClaim ls = false)) := by
+  unfold specResolve
+  cases hwl : wellLinked reg with
+  | false => simp
+  | true =>
+    cases hps : partOfSchema reg root with
+    | false => simp
+    | true =>
+      simp only [Bool.not_true, Bool.false_eq_true, if_false, Bool.true_eq_false, false_or]
+      constructor
+      · rintro ⟨w, h⟩
+        rcases finish_noClaim h with hc | ⟨k, ls, hc, hcl, _⟩
+        · have := (chainOf_noClaim_iff reg hid root scope t hroot ht hkw hscope).mp ⟨w, hc⟩
+          exact ⟨this.1, Or.inl this.2⟩
+        · exact ⟨(by rw [hc]; intro h'; cases h'), Or.inr ⟨k, ls, hc, hcl⟩⟩
+      · rintro ⟨hne, hfeat | ⟨k, ls, hc, hcl⟩⟩
+        · obtain ⟨w, hc⟩ := (chainOf_noClaim_iff reg hid root scope t hroot ht hkw hscope).mpr ⟨hne, hfeat⟩
+          exact ⟨w, by rw [hc]; rfl⟩
+        · exact ⟨"restated", by rw [hc]; simp [finish, hcl]⟩
+
+/-- **Exactly when the type statement is accepted**: `chainOf` answers `ok` iff the type statement has
+a finite derivation and is inside the claim.  (No name met on the way denotes two typedefs; type
+statements are identified by their position.) -/
+theorem chainOf_ok_iff (reg : Registry) (hid : SeqId reg) (root : Mod) (scope : List Stmt) (t : Stmt)
+    (hU : UnambiguousBelow reg (root, scope, t)) (hK : KeysIdentify reg (root, scope, t))
+    (hroot : root ∈ reg.mods) (ht : t ∈ descendants root.stmt) (hkw : t.kw = "type")
+    (hscope : ∀ s ∈ scope, s ∈ descendants root.stmt) :
+    (∃ k ls, chainOf reg (specFuel reg) root scope t [] = .ok k ls) ↔
+      Resolvable reg root scope t ∧ InsideClaim reg (root, scope, t) := by
+  constructor
+  · rintro ⟨k, ls, h⟩
+    exact ⟨chainOf_resolvable reg (bindType_sound reg) _ root scope t [] k ls h,
+      spec_ok_inside_claim reg hid _ root scope t [] k ls hroot h⟩
+  · rintro ⟨hres, hcl⟩
+    cases hc : chainOf reg (specFuel reg) root scope t [] with
+    | ok k ls => exact ⟨k, ls, rfl⟩
+    | error => exact absurd hres (spec_exec_error reg hid _ root scope t hroot hU hK hc)
+    | noClaim w =>
+      obtain ⟨_, site, hs, hf⟩ := spec_noClaim_reason reg root scope t hroot ht hkw hscope w hc
+      exact absurd hf (hcl site w hs)
+
+/-- **Exactly when an error is demanded**, inside the claim: `chainOf` answers `error` iff the type
+statement has no finite derivation (an unknown name or prefix, or a cyclic definition, below it). -/
+theorem chainOf_error_iff (reg : Registry) (hid : SeqId reg) (root : Mod) (scope : List Stmt) (t : Stmt)
+    (hU : UnambiguousBelow reg (root, scope, t)) (hK : KeysIdentify reg (root, scope, t))
+    (hroot : root ∈ reg.mods) (ht : t ∈ descendants root.stmt) (hkw : t.kw = "type")
+    (hscope : ∀ s ∈ scope, s ∈ descendants root.stmt) (hcl : InsideClaim reg (root, scope, t)) :
+    chainOf reg (specFuel reg) root scope t [] = .error ↔ ¬ Resolvable reg root scope t := by
+  constructor
+  · exact spec_exec_error reg hid _ root scope t hroot hU hK
+  · intro hno
+    cases hc : chainOf reg (specFuel reg) root scope t [] with
+    | ok k ls => exact absurd (chainOf_resolvable reg (bindType_sound reg) _ root scope t [] k ls hc) hno
+    | error => rfl
+    | noClaim w =>
+      obtain ⟨_, site, hs, hf⟩ := spec_noClaim_reason reg root scope t hroot ht hkw hscope w hc
+      exact absurd hf (hcl site w hs)
+
+/-! ## The main theorems against the executable specification, without `noClaim`
+
+For a reference inside the claim the verdict of the executable specification (budget `specFuel reg`,
+what the runner applies to every Go result) is `error` or `ok`, and the model does what the verdict
+demands. -/
+
+/-- What a resolved type `y` shows of the type `st` the executable specification computes: base kind,
+units, default, path, and the same patterns. -/
+def AgreesWith (y : YType) (st : SType) : Prop :=
+  y.kind = st.kind ∧ y.units = st.units ∧ y.hasDefault = st.default.isSome ∧ y.default = st.default.getD "" ∧
+  y.path = st.path ∧ ∀ p, p ∈ y.pattern ↔ p ∈ st.patterns
+
+/-- **Verdict and model, inside the claim** (for a loaded set: `linkOk`, `WfReg`, `InPlace`,
+`PartOfSchema`): either the executable specification demands an error — then the type statement has
+no finite derivation and the model reports an error — or it answers `ok k ls` — then the type
+statement has a finite derivation, the model raises no binding-level error, and whenever it raises no
+error at all the resolved type agrees with `inherit k ls`.  There is no third case. -/
+theorem resolve_verdict_inside_claim (reg : Registry) (hok : linkOk reg = true) (hwf : WfReg reg)
+    (root : Mod) (scope : List Stmt) (t : Stmt) (hin : InPlace reg (root, scope, t)) (hsch : PartOfSchema reg root)
+    (hkw : t.kw = "type") (hcl : InsideClaim reg (root, scope, t)) :
+    (chainOf reg (specFuel reg) root scope t [] = .error ∧ ¬ Resolvable reg root scope t ∧
+      (resolveType reg root scope t).2 ≠ []) ∨
+    (∃ k ls, chainOf reg (specFuel reg) root scope t [] = .ok k ls ∧ Resolvable reg root scope t ∧
+      (∀ e ∈ (resolveType reg root scope t).2, ¬ BindErr e ∧ e.cls ≠ "out-of-fuel") ∧
+      (∀ y, resolveType reg root scope t = (some y, []) → AgreesWith y (inherit k ls))) := by
+  have hS := standing_of_wellformed (Env.of reg) hwf (env_of_linked reg hok) root scope t hin
+  obtain ⟨hroot, ht, hscope⟩ := inSet_of_inPlace (env := Env.of reg) hin
+  have hid : SeqId reg := hS.seqId
+  have hU : UnambiguousBelow reg (root, scope, t) := hS.unamb
+  have hK : KeysIdentify reg (root, scope, t) := hS.keys
+  have hroot' : root ∈ reg.mods := hroot
+  by_cases hres : Resolvable reg root scope t
+  · right
+    obtain ⟨k, ls, hc⟩ := (chainOf_ok_iff reg hid root scope t hU hK hroot' ht hkw hscope).mpr ⟨hres, hcl⟩
+    refine ⟨k, ls, hc, hres, ?_, ?_⟩
+    · have := resolve_complete_binding (Env.of reg) root scope t hS hroot hsch ht hkw hscope hres (Env.of reg).fuel
+        (by show (allTypeKeys reg).length + 1 ≤ (allTypeKeys reg).length + 2; omega)
+      unfold resolveType resolveTypeE
+      simp only
+      exact this
+    · intro y hy
+      unfold resolveType resolveTypeE at hy
+      simp only [Prod.mk.injEq] at hy
+      have hy' := res_eq hy.1 hy.2
+      obtain ⟨kind, chain, hder, ⟨i1, i2, i3, i4, i5, i6, _⟩, _⟩ :=
+        resolve_chain (Env.of reg) _ root scope t [] y (type_not_scope hkw) hy'
+      obtain ⟨chain', hder', hfor⟩ := spec_exec_chain reg _ root scope t [] k ls hc
+      obtain ⟨rfl, rfl⟩ := spec_exec_chain_unique reg root scope t kind k chain chain' hU hder hder'
+      obtain ⟨j1, j2, j3, j4, j5, _⟩ := spec_exec_inherits reg chain ls hfor kind
+      refine ⟨by rw [i1, j1], by rw [i2, j2], by rw [i3, j3], by rw [i4, j3], by rw [i5, j4], ?_⟩
+      intro p
+      rw [i6, j5]
+  · left
+    refine ⟨(chainOf_error_iff reg hid root scope t hU hK hroot' ht hkw hscope hcl).mpr hres, hres, ?_⟩
+    intro he
+    apply hres
+    unfold resolveType resolveTypeE at he
+    simp only at he
+    exact resolve_errors (Env.of reg) _ root scope t [] (type_not_scope hkw) he
+
+/-- **Completeness, against the executable specification** (`resolve_complete` restated): inside the
+claim, a type statement the specification accepts gets the verdict `ok` (not `noClaim`), is resolved
+without error, and the resolved type agrees with what the executable specification computes. -/
+theorem resolve_complete_exec (reg : Registry) (hok : linkOk reg = true) (hwf : WfReg reg)
+    (root : Mod) (scope : List Stmt) (t : Stmt) (a : Attrs) (hin : InPlace reg (root, scope, t))
+    (hsch : PartOfSchema reg root) (hkw : t.kw = "type") (hcl : InsideClaim reg (root, scope, t))
+    (hadm : Admissible (Env.of reg) root scope t a) :
+    ∃ k ls y, chainOf reg (specFuel reg) root scope t [] = .ok k ls ∧
+      resolveType reg root scope t = (some y, []) ∧ attrsOf y = a ∧ AgreesWith y (inherit k ls) := by
+  have hS := standing_of_wellformed (Env.of reg) hwf (env_of_linked reg hok) root scope t hin
+  obtain ⟨hroot, ht, hscope⟩ := inSet_of_inPlace (env := Env.of reg) hin
+  obtain ⟨y, hy, ha⟩ := resolve_complete (Env.of reg) root scope t a hS hroot hsch ht hkw hscope hadm
+    (Env.of reg).fuel (by show (allTypeKeys reg).length + 1 ≤ (allTypeKeys reg).length + 2; omega)
+  have hy' : resolveType reg root scope t = (some y, []) := by
+    unfold resolveType resolveTypeE
+    simp only
+    rw [hy]
+  rcases resolve_verdict_inside_claim reg hok hwf root scope t hin hsch hkw hcl with ⟨_, hno, _⟩ | ⟨k, ls, hc, _, _, hag⟩
+  · exact absurd (admissible_resolvable hadm) hno
+  · exact ⟨k, ls, y, hc, hy', ha, hag y hy'⟩
+
+/-- **The model reports an error iff the executable specification demands one or a restriction
+fails** (`resolve_errors_iff` restated, inside the claim): the verdict `noClaim` does not occur. -/
+theorem resolve_errors_iff_exec (reg : Registry) (hok : linkOk reg = true) (hwf : WfReg reg)
+    (root : Mod) (scope : List Stmt) (t : Stmt) (hin : InPlace reg (root, scope, t)) (hsch : PartOfSchema reg root)
+    (hkw : t.kw = "type") (hcl : InsideClaim reg (root, scope, t)) :
+    (resolveType reg root scope t).2 ≠ [] ↔
+      chainOf reg (specFuel reg) root scope t [] = .error ∨
+      ((∃ k ls, chainOf reg (specFuel reg) root scope t [] = .ok k ls) ∧
+        ¬ ∃ a, Admissible (Env.of reg) root scope t a) := by
+  have hiff := resolve_errors_iff_loaded reg hok hwf root scope t hin hsch hkw
+  constructor
+  · intro hne
+    have hno := hiff.mp hne
+    rcases resolve_verdict_inside_claim reg hok hwf root scope t hin hsch hkw hcl with ⟨hc, _, _⟩ | ⟨k, ls, hc, _, _, _⟩
+    · exact Or.inl hc
+    · exact Or.inr ⟨⟨k, ls, hc⟩, hno⟩
+  · rintro (hc | ⟨_, hno⟩)
+    · rcases resolve_verdict_inside_claim reg hok hwf root scope t hin hsch hkw hcl with ⟨_, _, hne⟩ | ⟨k, ls, hc', _, _, _⟩
+      · exact hne
+      · rw [hc] at hc'; cases hc'
+    · exact hiff.mpr hno
+
+/-! ## One side condition tied to its sub-model's specification: enum / bit members (C14)
+
+`Inherits` says which statement's members the resolved type carries, as the table `enumFold` builds.
+Through property C14 (`Goyang.Props.C14.text_fold`, used by Lemmas/TypesEnumRfc.lean) that table is
+the RFC 7950 assignment (`Spec.Enum.assign` / `table`: an explicit value is kept, a member without a
+value gets 0 if it is the first and else one more than the highest value so far). -/
+
+/-- **A resolved enumeration carries the RFC values.**  An error-free resolution went along a
+derivation chain; if the nearest type statement of that chain that lists `enum` members lists the
+members `ms` (names, and values written as integer literals without superfluous zeros), the resolved
+type has an enum table, the RFC assignment accepts `ms`, and the table holds exactly the RFC values. -/
+theorem resolve_enum_rfc (env : Env) (fuel : Nat) (root : Mod) (scope : List Stmt) (t : Stmt)
+    (stack : List TypeKey) (y : YType) (ht : scopeKinds.contains t.kw = false)
+    (h : resolveTypeF env fuel root scope t stack = { ty := some y, errs := [] }) :
+    ∃ kind chain, DerivesFrom env.reg root scope t kind chain ∧
+      ∀ es, chainEnums chain = some es →
+        ∀ ms : List (Goyang.Spec.Enum.Name × Option Goyang.Spec.Number.Lit),
+          (∀ p ∈ ms, ∀ l, p.2 = some l → Goyang.Lemmas.Enum.LitForm l) →
+          es.map (fun e => (bytesOf e.arg, (e.argOf? "value").map bytesOf))
+            = ms.map (fun p => (p.1, p.2.map Goyang.Spec.Number.Lit.render)) →
+          ∃ tab, y.enum = some tab ∧
+            Goyang.Spec.Enum.assign .enumeration (ms.map fun p => (p.1, p.2.map Goyang.Spec.Number.Lit.num))
+              = some (Goyang.Spec.Enum.table (ms.map fun p => (p.1, p.2.map Goyang.Spec.Number.Lit.num))) ∧
+            tab.toInt = (Goyang.Spec.Enum.table (ms.map fun p => (p.1, p.2.map Goyang.Spec.Number.Lit.num))).reverse := by
+  obtain ⟨kind, chain, hder, hen, _, hE, _⟩ :=
+    Goyang.Lemmas.TypesEnumRfc.resolve_chain_folds env fuel root scope t stack y ht h
+  refine ⟨kind, chain, hder, ?_⟩
+  intro es hes ms hform hwritten
+  obtain ⟨h1, h2⟩ := Goyang.Lemmas.TypesEnumRfc.enumFold_rfc .enumeration "value" es ms hform hwritten (hE es hes)
+  exact ⟨_, by rw [hen, hes]; rfl, h1, h2⟩
+
+/-- **… and a resolved bits type the RFC positions** (the same for `bit` members and `position`). -/
+theorem resolve_bits_rfc (env : Env) (fuel : Nat) (root : Mod) (scope : List Stmt) (t : Stmt)
+    (stack : List TypeKey) (y : YType) (ht : scopeKinds.contains t.kw = false)
+    (h : resolveTypeF env fuel root scope t stack = { ty := some y, errs := [] }) :
+    ∃ kind chain, DerivesFrom env.reg root scope t kind chain ∧
+      ∀ bs, chainBits chain = some bs →
+        ∀ ms : List (Goyang.Spec.Enum.Name × Option Goyang.Spec.Number.Lit),
+          (∀ p ∈ ms, ∀ l, p.2 = some l → Goyang.Lemmas.Enum.LitForm l) →
+          bs.map (fun e => (bytesOf e.arg, (e.argOf? "position").map bytesOf))
+            = ms.map (fun p => (p.1, p.2.map Goyang.Spec.Number.Lit.render)) →
+          ∃ tab, y.bit = some tab ∧
+            Goyang.Spec.Enum.assign .bits (ms.map fun p => (p.1, p.2.map Goyang.Spec.Number.Lit.num))
+              = some (Goyang.Spec.Enum.table (ms.map fun p => (p.1, p.2.map Goyang.Spec.Number.Lit.num))) ∧
+            tab.toInt = (Goyang.Spec.Enum.table (ms.map fun p => (p.1, p.2.map Goyang.Spec.Number.Lit.num))).reverse := by
+  obtain ⟨kind, chain, hder, _, hbi, _, hB⟩ :=
+    Goyang.Lemmas.TypesEnumRfc.resolve_chain_folds env fuel root scope t stack y ht h
+  refine ⟨kind, chain, hder, ?_⟩
+  intro bs hbs ms hform hwritten
+  obtain ⟨h1, h2⟩ := Goyang.Lemmas.TypesEnumRfc.enumFold_rfc .bits "position" bs ms hform hwritten (hB bs hbs)
+  exact ⟨_, by rw [hbi, hbs]; rfl, h1, h2⟩
+
 /-! ## Non-vacuity: concrete schemas on which the hypotheses of the theorems hold
 
 The environments are written out (registry, include links) instead of being computed by `Env.of`,
@@ -982,6 +1306,91 @@ example (fuel : Nat) (stack : List TypeKey) : (resolveTypeF env4 fuel mD [leafQ,
 example : ((resolveTypeF env4 10 mD [leafQ, d] tyQ []).errs.map (·.cls)) = ["cycle"] := by decide
 /-- The executable specification demands the error (`spec_exec_error` applies). -/
 example : (match chainOf env4.reg 10 mD [leafQ, d] tyQ [] with | .error => true | _ => false) = true := by decide +kernel
+
+/-! ### The `noClaim` theorems on the examples -/
+
+/-- The shadowing example is inside the claim: the executable specification answers `ok`. -/
+theorem ok_ty : ∃ k ls, chainOf env.reg 10 mM [leaf, lst, con, m] ty [] = .ok k ls := by
+  have h : (match chainOf env.reg 10 mM [leaf, lst, con, m] ty [] with | .ok _ _ => true | _ => false) = true := by
+    decide +kernel
+  cases hc : chainOf env.reg 10 mM [leaf, lst, con, m] ty [] with
+  | ok k ls => exact ⟨k, ls, rfl⟩
+  | error => rw [hc] at h; cases h
+  | noClaim w => rw [hc] at h; cases h
+
+theorem inside_ty : InsideClaim env.reg s0 := by
+  obtain ⟨k, ls, h⟩ := ok_ty
+  exact spec_ok_inside_claim env.reg seqId_env 10 mM [leaf, lst, con, m] ty [] k ls mM_mem h
+
+theorem inPlace_ty : InPlace env.reg (mM, [leaf, lst, con, m], ty) :=
+  ⟨mM_mem, List.Mem.head _, List.Mem.tail _ (List.Mem.head _), List.Mem.tail _ (List.Mem.tail _ (List.Mem.head _)),
+    List.Mem.tail _ (List.Mem.tail _ (List.Mem.head _)), rfl⟩
+
+/-- `spec_budget_suffices`, `chainOf_noClaim_iff`, `chainOf_ok_iff`, `chainOf_error_iff` apply to it … -/
+example : chainOf env.reg (specFuel env.reg) mM [leaf, lst, con, m] ty [] ≠ .noClaim "fuel" :=
+  (spec_budget_suffices env.reg mM [leaf, lst, con, m] ty mM_mem ty_in_m.1 rfl ty_in_m.2).1
+example : ∃ k ls, chainOf env.reg (specFuel env.reg) mM [leaf, lst, con, m] ty [] = .ok k ls :=
+  (chainOf_ok_iff env.reg seqId_env mM [leaf, lst, con, m] ty standing_env.unamb standing_env.keys mM_mem
+    ty_in_m.1 rfl ty_in_m.2).mpr ⟨resolvable_ty, inside_ty⟩
+/-- … and so do the theorems for a loaded set (`linkOk`, `WfReg`, `InPlace`, `PartOfSchema`, `InsideClaim`):
+the second case of `resolve_verdict_inside_claim` holds of it. -/
+example : linkOk env.reg = true := by decide +kernel
+example : ∃ k ls, chainOf env.reg (specFuel env.reg) mM [leaf, lst, con, m] ty [] = .ok k ls ∧
+    ∀ y, resolveType env.reg mM [leaf, lst, con, m] ty = (some y, []) → AgreesWith y (inherit k ls) := by
+  rcases resolve_verdict_inside_claim env.reg (by decide +kernel) (by decide +kernel) mM [leaf, lst, con, m] ty
+    inPlace_ty mM_sch rfl inside_ty with ⟨_, hno, _⟩ | ⟨k, ls, hc, _, _, hag⟩
+  · exact absurd resolvable_ty hno
+  · exact ⟨k, ls, hc, hag⟩
+
+/-! An enumeration that lists the name `a` twice: the executable specification answers
+`noClaim "enum-values"`, and `spec_noClaim_reason` names the feature (at the type statement itself). -/
+def tyE : Stmt := S "e.yang" "type" "enumeration" 2 10 [S "e.yang" "enum" "a" 2 30 [], S "e.yang" "enum" "a" 2 40 []]
+def leafE : Stmt := S "e.yang" "leaf" "l" 2 1 [tyE]
+def e : Stmt := S "e.yang" "module" "e" 1 1 [S "e.yang" "prefix" "pe" 1 10 [], leafE]
+def mE : Mod := ⟨0, e⟩
+def regE : Registry := { mods := [mE], modules := [("e", 0)] }
+
+open Goyang.Lemmas.TypesFuel in
+theorem tyE_in_e : tyE ∈ descendants mE.stmt ∧ ∀ s ∈ [leafE, e], s ∈ descendants mE.stmt := by
+  have he : e ∈ descendants mE.stmt := self_mem_descendants _
+  have hleaf : leafE ∈ descendants mE.stmt := child_below he (List.Mem.tail _ (List.Mem.head _))
+  refine ⟨child_below hleaf (List.Mem.head _), ?_⟩
+  intro s hs
+  simp only [List.mem_cons, List.not_mem_nil, or_false] at hs
+  rcases hs with rfl | rfl <;> assumption
+
+example : (match chainOf regE (specFuel regE) mE [leafE, e] tyE [] with
+    | .noClaim w => w == "enum-values" | _ => false) = true := by decide +kernel
+example (w : String) (h : chainOf regE (specFuel regE) mE [leafE, e] tyE [] = .noClaim w) :
+    ∃ site, UsesStar regE (mE, [leafE, e], tyE) site ∧ Feature regE site w :=
+  (spec_noClaim_reason regE mE [leafE, e] tyE (List.mem_singleton.mpr rfl) tyE_in_e.1 rfl tyE_in_e.2 w h).2
+/-- The feature, directly. -/
+example : Feature regE (mE, [leafE, e], tyE) "enum-values" :=
+  Feature.enumValues (by intro h; cases h) (by decide +kernel)
+
+/-! ### `resolve_enum_rfc` on `type enumeration { enum a; enum b { value 5; } enum c; }`: the values are 0, 5, 6 -/
+def tyR : Stmt := S "r.yang" "type" "enumeration" 2 10
+  [S "r.yang" "enum" "a" 2 30 [], S "r.yang" "enum" "b" 2 40 [S "r.yang" "value" "5" 2 50 []], S "r.yang" "enum" "c" 2 60 []]
+def leafR : Stmt := S "r.yang" "leaf" "l" 2 1 [tyR]
+def r : Stmt := S "r.yang" "module" "r" 1 1 [S "r.yang" "prefix" "pr" 1 10 [], leafR]
+def mR : Mod := ⟨0, r⟩
+def envR : Env := { reg := { mods := [mR], modules := [("r", 0)] }, link := {}, dict := [], fuel := 10 }
+/-- the members as written: names as bytes, `5` as a literal -/
+def msR : List (Goyang.Spec.Enum.Name × Option Goyang.Spec.Number.Lit) :=
+  [([97], none), ([98], some ⟨none, [5], none⟩), ([99], none)]
+
+example : (resolveTypeF envR 10 mR [leafR, r] tyR []).errs = [] := by decide +kernel
+example : ∀ p ∈ msR, ∀ l, p.2 = some l → Goyang.Lemmas.Enum.LitForm l := by
+  intro p hp l hl
+  simp only [msR, List.mem_cons, List.not_mem_nil, or_false] at hp
+  rcases hp with rfl | rfl | rfl
+  · cases hl
+  · cases hl; exact ⟨⟨by decide, by decide⟩, by decide, rfl, by decide⟩
+  · cases hl
+example : (tyR.all "enum").map (fun e => (bytesOf e.arg, (e.argOf? "value").map bytesOf))
+    = msR.map (fun p => (p.1, p.2.map Goyang.Spec.Number.Lit.render)) := by decide +kernel
+example : Goyang.Spec.Enum.table (msR.map fun p => (p.1, p.2.map Goyang.Spec.Number.Lit.num))
+    = [([97], 0), ([98], 5), ([99], 6)] := by decide +kernel
 
 end Ex
 
